@@ -150,3 +150,14 @@ pub fn guarded(f: impl FnOnce() -> String + std::panic::UnwindSafe) -> String {
 pub fn errkind(e: &rustic_core::RusticError) -> String {
     format!("err:{:?}", rustic_core::verif::error::kind(e))
 }
+
+/// Time limits of watchdog-style oracles are stated for an idle host and stretched on a loaded one:
+/// `1 + ceil(load1 / cores)`, at most 8 (a saturated machine must not turn a slow case into a reported hang).
+pub fn load_factor() -> u64 {
+    let load = std::fs::read_to_string("/proc/loadavg")
+        .ok()
+        .and_then(|s| s.split_whitespace().next().and_then(|x| x.parse::<f64>().ok()))
+        .unwrap_or(0.0);
+    let cores = std::thread::available_parallelism().map_or(1, std::num::NonZeroUsize::get) as f64;
+    (1 + (load / cores).ceil() as u64).min(8)
+}
